@@ -89,6 +89,15 @@ Theorem C09_modified_matrix_entries :
 Proof. exact e_mod_spec. Qed.
 Print Assumptions C09_modified_matrix_entries.
 
+(* ExampleModifiedKernelMatrix with per-example scaling coefficients 2^l (scaled by 16) *)
+Theorem C09_example_modified_matrix_entries :
+  forall (k0 : nat -> nat -> Z) n d0 l0 fl i j,
+    length d0 = n -> length l0 = n -> valid_flips n fl -> i < n -> j < n ->
+    let s := dflips fl (dinit n d0 l0) in
+    e_ex k0 s i j = (k0 (p s i) (p s j) * 2 ^ (4 - Z.of_nat (nth (p s i) l0 0%nat) - Z.of_nat (nth (p s j) l0 0%nat)))%Z.
+Proof. exact e_ex_spec. Qed.
+Print Assumptions C09_example_modified_matrix_entries.
+
 Theorem C09_flip_orders_are_permutations :
   forall n d0 l0 fl, length d0 = n -> length l0 = n -> valid_flips n fl ->
     Permutation.Permutation (pos (dflips fl (dinit n d0 l0))) (seq 0 n).
